@@ -605,10 +605,21 @@ int main(int argc, char *argv[])
       rl_attempted_completion_function = command_name_completion;
       line = readline(prompt);
 
-      if (!(line == NULL || line[0] == 0))
+      // End of input ends the session (as the fgets() build does); it used
+      // to run the previous command again for ever.
+      if (line == NULL) { break; }
+
+      if (line[0] != 0)
       {
         add_history(line);
         command = line;
+      }
+        else
+      if (in_code)
+      {
+        // An empty line ends the asm block (it must not repeat the
+        // previous source line).
+        command.clear();
       }
 #if 0
         else
